@@ -1,16 +1,17 @@
-SPECIFICATION Spec
+SPECIFICATION GenSpec
 CONSTANTS
   Svcs = {"a", "b", "c"}
   Cap = 2
   MaxOps = 4
-  MaxFails = 2
+  MaxFails = 0
   FixEnqueue = FALSE
   FixBatch = FALSE
-  LossySend = TRUE
+  LossySend = FALSE
   HasKeepalive = TRUE
   DirectCalls = TRUE
   MaxMsgLen = 1
   AsyncApply = FALSE
-INVARIANTS NotW1
-
+  Eager = TRUE
+VIEW GenView
+INVARIANTS TrapOutOfSync
 CHECK_DEADLOCK FALSE
